@@ -271,11 +271,43 @@ def prefixes_of(ctx, f, test, subject):
                 p.func.value.id == subject and len(p.args) == 1:
             alts = fold_bytes_alts(ctx, f, p.args[0])
             if alts is None:
-                return None
+                return _prefixes_by_language(test, subject)
             out.extend(alts)
         else:
-            return None
+            return _prefixes_by_language(test, subject)
     return out or None
+
+
+def _prefixes_by_language(test, subject):
+    """any other spelling of a prefix test (`s[:1] in (a, b)`, `s[0:2] ==
+    a`, ...): the test as a language over the subject must be exactly
+    (p1 | p2 | ..) followed by anything, for literals p_i that occur in it"""
+    from .predlang import pred_lang, NotAPredicate
+    from .lang import Lang
+    from .core import AnalysisError
+    cands = []
+    for n in ast.walk(test):
+        if isinstance(n, ast.Constant) and isinstance(n.value, bytes) and \
+                n.value and n.value not in cands:
+            cands.append(n.value)
+    if not cands or not any(isinstance(n, ast.Name) and n.id == subject
+                            for n in ast.walk(test)):
+        return None
+    try:
+        lang = pred_lang(test, subject)
+        ALL = Lang.all_strings()
+        keep = [c for c in cands if Lang.literal(c).concat(ALL)
+                .not_subset_witness(lang) is None]
+        if not keep:
+            return None
+        union = Lang.empty()
+        for c in keep:
+            union = union.union(Lang.literal(c).concat(ALL))
+        if lang.not_subset_witness(union) is not None:
+            return None
+        return keep
+    except (NotAPredicate, AnalysisError):
+        return None
 
 
 def type_tests(test, subject):
